@@ -27,7 +27,8 @@ RULE = ("one PRNG; imagers on NON-square grids (rx, ry in 1..7, rx != ry in 6 of
         "with scalar variance (float/int/np.float64), 2x2 matrix (list/array/tuple) with equal or unequal variances, zero or "
         "non-zero covariance (|r| up to 0.999, equal-variance correlated included), uniform box, user callables; weights: "
         "persistence (n random), linear_ramp (random low/high/start/end, all three branches, low/high negative in 3 of 7), user callable "
-        "(coefficients negative in 3 of 7). "
+        "(coefficients negative in 3 of 7), user callables that return one of their argument arrays itself / a view of it / a copy "
+        "(weight = that coordinate). "
         "OUTSIDE the quantifier, compared with the model only (a disagreement there is a correspondence break, never a claimed failing input; "
         "the same configuration restricted to the quantifier is judged instead): a point in 22 lies BELOW the diagonal (negative persistence: "
         "sign kept for odd n, NaN image for fractional n, `low` for the ramp), and 15% of the equal-variance matrices carry an ASYMMETRIC "
@@ -68,6 +69,56 @@ class Counters:
 def user_weight(b, p, a=1.0, c=0.5):
     """a user-supplied weight (elementwise)"""
     return a * np.abs(b) + c * p * p
+
+
+# user weights that hand back one of their ARGUMENT ARRAYS (the object itself, a view of it, or — as a control — a copy):
+# `lambda b, p: p` is the most natural user weight there is ("weigh by persistence").  The weight of a point is then that
+# coordinate's value; an implementation that afterwards works in place on the array it passed to the weight function changes
+# the weights it was given.
+def _alias_p(b, p):
+    return p
+
+
+def _alias_b(b, p):
+    return b
+
+
+def _alias_p_view(b, p):
+    return p[:]
+
+
+def _alias_b_view(b, p):
+    return b[:]
+
+
+def _alias_p_asarray(b, p):
+    return np.asarray(p)
+
+
+def _alias_p_rev2(b, p):
+    return p[::-1][::-1]
+
+
+def _alias_p_copy(b, p):
+    return p.copy()
+
+
+USER_ALIAS = {"p": _alias_p, "b": _alias_b, "p[:]": _alias_p_view, "b[:]": _alias_b_view, "asarray(p)": _alias_p_asarray,
+              "p[::-1][::-1]": _alias_p_rev2, "p.copy()": _alias_p_copy}
+
+
+def user_fn_params(w):
+    """(callable, weight_params) of a user weight description"""
+    if w["kind"] == "user_alias":
+        return USER_ALIAS[w["ret"]], {}
+    return user_weight, {"a": w["a"], "c": w["c"]}
+
+
+def user_value(w, b, p):
+    """the weight of the point (b, p) under a user weight description, from its definition"""
+    if w["kind"] == "user_alias":
+        return b if w["ret"] in ("b", "b[:]") else p
+    return w["a"] * abs(b) + w["c"] * p * p
 
 
 def make_user_logistic(cnt):
@@ -161,8 +212,8 @@ def build_imager(case, cnt):
     elif w["kind"] == "linear_ramp":
         weight = "linear_ramp" if w.get("as", "str") == "str" else iw.linear_ramp
         wparams = {"low": w["low"], "high": w["high"], "start": w["start"], "end": w["end"]}
-    elif w["kind"] == "user":
-        weight, wparams = user_weight, {"a": w["a"], "c": w["c"]}
+    elif w["kind"] in ("user", "user_alias"):
+        weight, wparams = user_fn_params(w)
     else:
         raise common.HarnessError("weight kind %r" % w["kind"])
     return images.PersistenceImager(birth_range=tuple(case["birth_range"]), pers_range=tuple(case["pers_range"]),
@@ -221,7 +272,7 @@ def weights_independent(case, bp):
             else:
                 out.append((p - w["start"]) * (w["high"] - w["low"]) / (w["end"] - w["start"]) + w["low"])
         else:
-            out.append(w["a"] * abs(b) + w["c"] * p * p)
+            out.append(user_value(w, b, p))
     return out
 
 
@@ -427,7 +478,11 @@ def gen_kernel(r, kind, ps, scale, dyadic):
 
 
 def gen_weight(r, pr, scale, dyadic):
-    kind = r.choice(["persistence", "persistence", "linear_ramp", "linear_ramp", "user"]) if not dyadic else r.choice(["persistence", "linear_ramp"])
+    kind = r.choice(["persistence", "persistence", "linear_ramp", "linear_ramp", "user", "user_alias"]) if not dyadic \
+        else r.choice(["persistence", "linear_ramp"])
+    if kind == "user_alias":
+        # the weight function returns one of the arrays it was called with (itself / a view / a copy as control)
+        return {"kind": "user_alias", "ret": r.choice(["p", "p", "b", "p[:]", "b[:]", "asarray(p)", "p[::-1][::-1]", "p.copy()"])}
     if kind == "persistence":
         n = float(r.choice([1, 2, 3])) if dyadic else r.choice([1.0, 2.0, 0.5, 3.0, r.uniform(0.3, 3.0)])
         return {"kind": "persistence", "n": n, "as": r.choice(["str", "callable"])}
@@ -714,7 +769,8 @@ def run(ctx):
         ws = weight_spec(case["weight"])
         if ws is None:
             with np.errstate(all="ignore"):
-                raw = user_weight(np.array([p[0] for p in bp]), np.array([p[1] for p in bp]), a=case["weight"]["a"], c=case["weight"]["c"])
+                fn, fkw = user_fn_params(case["weight"])
+                raw = fn(np.array([p[0] for p in bp], dtype=np.float64), np.array([p[1] for p in bp], dtype=np.float64), **fkw)
             wtok = enc(["raw", [float(x) for x in raw]])
         else:
             wtok = enc(ws)
